@@ -796,7 +796,7 @@ Proof.
   split; apply (proj1 (bool_decide_eq_false _)); vm_compute; reflexivity.
 Qed.
 
-(** F23: a unit defined while a redefining context was active is visible on the next activation
+(** F110: a unit defined while a redefining context was active is visible on the next activation
     of that combination but no longer after an inner block has been left (the switch
     [q_rebuild_on_hit] alone suffices) *)
 Lemma exit_restores_refuted :
